@@ -123,6 +123,8 @@ class U3(Universe):
                 for k in range(min(n, 3)):
                     for fin in ['close', 'abort']:
                         o.append(IterEdit(l, k, 'remove', (), fin))
+                    o.append(IterEdit(l, k, 'remove+update', (('_a', 'V3'),), 'close'))
+                    o.append(IterEdit(l, k, 'remove+remove', (), 'close'))
                     o.append(IterEdit(l, k, 'update', (('_a', 'V3'),), 'close'))
                     o.append(IterEdit(l, k, 'update', (('_c', 'NA'),), 'close'))
                     o.append(IterEdit(l, k, 'update', (('_s', 'V2'), ('_zz', 'V1')), 'close'))
